@@ -13,17 +13,27 @@ Phase == {0, Fut, Past}
 ValA == UNION {{VStr(x, e), VStr(N(5), e), VList(<<x, y>>, e), VHash((f :> x), e), VSet({x, y}, e)} : e \in Phase}
 ValB == UNION {{VStr(y, e), VList(<<x>>, e), VSet({x}, e)} : e \in Phase}
 Dbs0 == UNION {{(ka :> va) @@ (kb :> vb) : va \in ValA, vb \in ValB}, {(ka :> va) : va \in ValA}, {(kb :> vb) : vb \in ValB}, {EmptyDb}}
-ExpStates == {WithDb0(InitServer({1}), d) : d \in Dbs0}
+(* SORT looks into other keys through its BY / GET patterns: a list whose elements name two strings (weights and
+   fetched values at once), each of them in every lifetime phase - an expired weight / object is a missing one. *)
+kcc == B("c")
+SortDbs == {(ka :> VList(<<kb, kcc>>, 0)) @@ (kb :> VStr(N(2), e1)) @@ (kcc :> VStr(N(1), e2)) : e1 \in Phase, e2 \in Phase}
+ExpStates == {WithDb0(InitServer({1}), d) : d \in Dbs0 \cup SortDbs}
+SortExpCmds == { C("SORT", <<ka, W("BY"), W("*")>>), C("SORT", <<ka, W("BY"), W("*"), W("GET"), W("*")>>),
+                 C("SORT", <<ka, W("BY"), W("nosort"), W("GET"), W("*"), W("GET"), W("#")>>),
+                 C("SORT", <<ka, W("ALPHA"), W("GET"), W("*"), W("STORE"), B("d")>>),
+                 C("SORT", <<ka, W("BY"), W("*"), W("DESC"), W("STORE"), B("d")>>) }
 
 ExpKind(nm) == CASE nm = "EXPIRE" -> "s" [] nm = "PEXPIRE" -> "ms" [] nm = "EXPIREAT" -> "ats" [] OTHER -> "atms"
+\* (SORT ... BY nosort of a set returns the members in the set's internal order, which Redis leaves open)
 ExpRelevant(s, cmd) ==
-    ~(CmdName(cmd) \in {"EXPIRE", "PEXPIRE", "EXPIREAT", "PEXPIREAT"} /\ Len(cmd) = 4
-      /\ ExpireAmbiguous(Live(s.dbs[0], s.now), s.now, Tail(cmd), ExpKind(CmdName(cmd))))
+    /\ ~(CmdName(cmd) = "SORT" /\ ka \in DOMAIN s.dbs[0] /\ s.dbs[0][ka].ty = "set")
+    /\ ~(CmdName(cmd) \in {"EXPIRE", "PEXPIRE", "EXPIREAT", "PEXPIREAT"} /\ Len(cmd) = 4
+         /\ ExpireAmbiguous(Live(s.dbs[0], s.now), s.now, Tail(cmd), ExpKind(CmdName(cmd))))
 
 Opts == {<<>>, <<W("NX")>>, <<W("XX")>>, <<W("GT")>>, <<W("LT")>>, <<W("gt")>>, <<W("NX"), W("XX")>>, <<W("BOGUS")>>}
 ExpCmds ==
     UNION {
-      PerKey(ka, kb), PerKey(kb, ka),
+      PerKey(ka, kb), PerKey(kb, ka), SortExpCmds,
       {C("EXPIRE", <<ka, t>> \o o) : t \in {N(100), N(900), N(0), N(-5)}, o \in Opts},
       {C("PEXPIRE", <<ka, t>> \o o) : t \in {N(100000), N(900000)}, o \in Opts},
       {C("EXPIREAT", <<ka, t>> \o o) : t \in {TMark(Fut - 100000), TMark(Fut + 100000), TMark(Past), N(5)}, o \in Opts},
@@ -32,6 +42,8 @@ ExpCmds ==
       {C("SET", <<ka, y>> \o o) : o \in {<<W("KEEPTTL")>>, <<W("EX"), N(100)>>, <<W("PXAT"), MMark(Fut + 1000)>>, <<W("EXAT"), TMark(Fut + 1000)>>, <<W("XX"), W("KEEPTTL")>>, <<W("NX"), W("PX"), N(100000)>>, <<W("PXAT"), MMark(Past)>>}},
       {C("GETEX", <<ka>> \o o) : o \in {<<W("PERSIST")>>, <<W("EX"), N(100)>>, <<W("PXAT"), MMark(Fut + 1000)>>, <<W("PXAT"), MMark(Past)>>}},
       {C("RENAME", <<ka, B("c")>>), C("COPY", <<kb, B("c")>>), C("DEL", <<ka, kb>>), C("EXISTS", <<ka, kb>>), C("KEYS", <<W("*")>>), C("DBSIZE", <<>>), C("RANDOMKEY", <<>>),
-       C("MGET", <<ka, kb>>), C("SUNIONSTORE", <<B("c"), ka, kb>>), C("SDIFFSTORE", <<ka, ka, kb>>), C("LMOVE", <<ka, ka, W("LEFT"), W("RIGHT")>>), C("FLUSHDB", <<>>)}
+       C("MGET", <<ka, kb>>), C("SUNIONSTORE", <<B("c"), ka, kb>>), C("SDIFFSTORE", <<ka, ka, kb>>), C("LMOVE", <<ka, ka, W("LEFT"), W("RIGHT")>>), C("FLUSHDB", <<>>),
+       \* (kb may be a list of one element: the rotation empties and refills it - the time to live stays)
+       C("LMOVE", <<kb, kb, W("RIGHT"), W("LEFT")>>), C("RPOPLPUSH", <<kb, kb>>)}
     }
 =============================================================================
